@@ -617,6 +617,10 @@ func (vc *VC) selectField(env *Env, v Term, t types.Type, name string) (Term, ty
 			}
 			ft := stt.Field(idx).Type()
 			cur = vc.load(env.st, FldPtr(cur, idx), ft)
+			if !env.inQuant {
+				// type invariant of memory: every cell holds a well-formed value of its Go type
+				vc.q.Assert(vc.wfAssume(env.st, cur, ft, 2))
+			}
 			ct = ft
 			continue
 		}
